@@ -70,7 +70,7 @@ Error decode(uint32_t name_value, InstStringifyOptions options, const char* stri
   return output.append(name_data, name_size);
 }
 
-InstId find_instruction(const char* s, size_t len, const uint32_t* name_table, const char* string_table, const InstNameIndex& name_index) noexcept {
+InstId find_instruction(const char* s, size_t len, const uint32_t* name_table, const char* string_table, const InstNameIndex& name_index, const uint16_t* sorted_id_table) noexcept {
   ASMJIT_ASSERT(s != nullptr);
   ASMJIT_ASSERT(len > 0u);
 
@@ -88,7 +88,8 @@ InstId find_instruction(const char* s, size_t len, const uint32_t* name_table, c
 
   char name_data[kBufferSize];
   for (size_t lim = end - base; lim != 0; lim >>= 1) {
-    size_t inst_id = base + (lim >> 1);
+    size_t index = base + (lim >> 1);
+    size_t inst_id = sorted_id_table ? size_t(sorted_id_table[index]) : index;
     size_t name_size = decode_to_buffer(name_data, name_table[inst_id], InstStringifyOptions::kNone, string_table);
 
     int result = Support::compare_string_views(s, len, name_data, name_size);
@@ -97,7 +98,7 @@ InstId find_instruction(const char* s, size_t len, const uint32_t* name_table, c
     }
 
     if (result > 0) {
-      base = inst_id + 1;
+      base = index + 1;
       lim--;
       continue;
     }
